@@ -99,11 +99,11 @@ PROPS = {
         partial="proved for every forest, oracle, search_k and K: lsh_sound; knn_finds_something (every listed id live + some listed document passes the filter => non-empty result; the proof's hypothesis 'hyperplane distance <= initial radius' exposed a defect, fixed in /repo 93c5d62, and is now discharged by the regenerated fact that the traversal starts with +Inf); single_leaf_equals_exact (one leaf per tree => the result is the exact scan over a leaf's order, and exact answers have order-independent distances); node_queue_is_a_multiset. The same is checked by direct oracles on the implementation and by exact correspondence of the traversal (result distances and pointsSearched) with the Lean search. NaN distances are outside the Nat-encoded model (the harness skips them; C06 proves distances are not NaN)",
     ),
     "C05": dict(
-        modules=["Syzgy.Props.C05"], ties=["Search"],
+        modules=["Syzgy.Props.C05", "Syzgy.Props.C05Real"], ties=["Search"],
         runs={"quick": [["lsh-C05", "--scenarios", "20", "--ops", "160"]], "thorough": [["lsh-C05", "--scenarios", "120", "--ops", "600"]]},
         trusted=SEARCH_TRUST + ["distanceToHyperplane is a deterministic function of (vector, hyperplane): the side oracle of the model is a function"],
         statement="forest ids = live ids invariant, all histories, all oracles",
-        partial="covering-radius completeness is checked on the implementation after every operation (direct oracle); as a theorem it needs the geometric PruneSound hypothesis and is not yet proved",
+        partial="proved: TreeInv preserved by every operation; covering_radius_complete (every listed document within the radius and passing the filter is returned, for every forest, under the geometric hypothesis FarSound or hyperplane-within-radius); the geometric hypothesis itself for the Euclidean metric over the reals (C05.far_side_geometry, Mathlib). Gap: binary64 rounding of the geometry (the harness enlarges the covering radius by 1e-7 relative); the cosine 'distance to hyperplane' is not a geometric distance, only its bound 0.5 <= radius 1 is used. Checked on the implementation after every operation (direct oracle)",
     ),
     "C06": dict(
         modules=["Syzgy.Props.C06", "Syzgy.Props.C06Real"], ties=["Numeric"],
